@@ -25,5 +25,14 @@ def elf_constants():
     out = {}
     for m in re.finditer(r"^#\s*define\s+((?:STT|STB|STV|EM|SHN)_[A-Za-z0-9_]+)\s+(0x[0-9a-fA-F]+|\d+)\s*$", txt, re.M):
         out[m.group(1)] = int(m.group(2), 0)
+    # #define STT_HP_OPAQUE (STT_LOOS + 0x1)
+    for m in re.finditer(r"^#\s*define\s+((?:STT|STB|STV)_[A-Za-z0-9_]+)\s+\(\s*([A-Z_0-9]+)\s*\+\s*(0x[0-9a-fA-F]+|\d+)\s*\)\s*$", txt, re.M):
+        if m.group(2) in out:
+            out[m.group(1)] = out[m.group(2)] + int(m.group(3), 0)
+    # #define STT_ARM_TFUNC STT_LOPROC
+    for _ in range(3):
+        for m in re.finditer(r"^#\s*define\s+((?:STT|STB|STV)_[A-Za-z0-9_]+)\s+((?:STT|STB|STV)_[A-Za-z0-9_]+)\s*$", txt, re.M):
+            if m.group(2) in out and m.group(1) not in out:
+                out[m.group(1)] = out[m.group(2)]
     _cache["elf"] = out
     return out
